@@ -512,7 +512,7 @@ namespace GeographicLib {
               node.leaves[l] = 0;
           }
         }
-        node.Check(numpoints, treesize, bucket);
+        node.Check(numpoints, i, bucket);
         tree.push_back(node);
       }
       _tree.swap(tree);
